@@ -68,7 +68,8 @@ structure Checkout where
   waiter : WaitKind
   inner  : Inner
   conn   : Option ConnId := none   -- connection popped from the pool at creation
-  marker : Bool := false           -- owns the pool's connection-in-progress marker
+  marker : Bool := false           -- placed a connection-in-progress marker (`marker: Option<AttemptId>` is some)
+  attempt : Nat := 0               -- … and this is the attempt id it was placed under
   alive  : Bool := true
 deriving Repr, Inhabited, DecidableEq
 
@@ -89,7 +90,9 @@ structure State where
   now        : Nat := 0
   keys       : List (KeyId × Token) := []          -- `TokenMap`
   counter    : Nat := 1
-  connecting : List Token := []                    -- `PoolInner::connecting`
+  connecting : List Token := []                    -- `PoolInner::connecting` (the keys)
+  owner      : Token → Nat := fun _ => 0           -- … and the attempt id stored with the key when it was last placed
+  attempts   : Nat := 0                            -- `PoolInner::attempts`
   waiting    : Token → List ReqId := fun _ => []   -- `PoolInner::waiting` (senders, by owning request)
   idle       : Token → List (ConnId × Nat) := fun _ => []   -- head = most recently pushed (Vec back)
   chan       : ReqId → Chan := fun _ => .none
@@ -199,8 +202,10 @@ def issueMissing (s : State) (r : ReqId) (k : KeyId) (mux : Bool) (t : Token) : 
   if s.connecting.contains t then
     { s with co := upd s.co r (some { key := k, token := t, mux, waiter := .connecting, inner := .waiting }) }
   else
-    let s := if mux then { s with connecting := t :: s.connecting } else s
+    let s := if mux then { s with connecting := t :: s.connecting, attempts := s.attempts + 1,
+                                  owner := upd s.owner t (s.attempts + 1) } else s
     { s with co := upd s.co r (some { key := k, token := t, mux, waiter := .idle, marker := mux,
+                                       attempt := if mux then s.attempts else 0,
                                        inner := if s.cfg.cap then .delayDrop else .connecting }) }
 
 /-- `Pool::checkout` -/
@@ -245,9 +250,12 @@ def returnUnused (s : State) (c : Checkout) : State :=
     else if canShare s cid then s else { s with dropped := cid :: s.dropped }
   | none => s
 
-/-- The marker's owner going away without a delayed drop cancels the marker. -/
+/-- The checkout that placed a marker going away without a delayed drop cancels it – if it is still the
+    one in place: `cancel_connection(token, attempt)` compares the attempt id. (The marker of an attempt
+    is also removed when somebody else provides a shareable connection; a later attempt may then have
+    placed a marker of its own for the same token, which is not this checkout's to cancel.) -/
 def cancelIfOwner (s : State) (c : Checkout) : State :=
-  if c.marker then cancelConnection s c.token else s
+  if c.marker && s.owner c.token == c.attempt then cancelConnection s c.token else s
 
 /-- `self.connection.take()`: the checkout no longer holds the connection it was given -/
 def takeConn (s : State) (r : ReqId) (c : Checkout) : State :=
